@@ -24,6 +24,7 @@ A_UNNAMED_BITFIELD = "unnamed-bitfield"
 A_ADDR_OFFSET = "address-constant-with-offset"
 A_NARROW = "narrow-int-mul-div-neg-and-float-casts"   # same switch as in c28gen
 A_SMALL_STACK_PARAM = "seventh-parameter-narrower-than-int"
+A_NOT_CONST = "logical-not-of-constant-at-run-time"
 
 
 class Prog:
@@ -322,6 +323,7 @@ class Prog:
             self.feat("prototype-before-definition")
         fb = FuncBody(self, ret, list(params), ptr_param)
         body = fb.block(depth=0, top=True)
+        self.feat("loop-nesting:%d" % min(fb.maxloop, 4))
         self.top.append("%s%s %s(%s) %s" % (storage, ret, name, sig, body))
         if not ptr_param:
             self.funcs.append((name, ret, [t for _, t in params]))
@@ -382,6 +384,7 @@ class FuncBody:
         self.switch = 0
         self.larrs = []
         self.lstructs = []
+        self.maxloop = 0
 
     def feat(self, f):
         self.p.feat("stmt:" + f)
@@ -460,6 +463,15 @@ class FuncBody:
         if c < 0.70:
             op = r.choice(("-", "~", "!", "+"))
             a, t = self.atom() if r.random() < 0.5 else (self.expr(depth - 1), "?")
+            if op == "!":
+                if A_NOT_CONST in self.p.avoid:
+                    lv, lt = self.lvalue()
+                    if lv is None:
+                        op = "+"
+                    else:
+                        a, t = lv, lt
+                elif t == "int" or t == "?":
+                    self.p.feat("expr:not-of-possibly-constant")
             if op in "-~" and (t == "?" or self.p.base_of(t) in SUBINT or a.startswith("'")):
                 # ppci does not promote the operand (and types 'a' as char): an 8/16-bit NEG/INV results
                 if A_NARROW in self.p.avoid:
@@ -528,18 +540,18 @@ class FuncBody:
             return s
         if c < 0.60:
             self.feat("while")
-            self.loop += 1
+            self.loop += 1; self.maxloop = max(self.maxloop, self.loop)
             s = "while (%s) %s" % (self.expr(), self.sub(depth))
             self.loop -= 1
             return s
         if c < 0.66:
             self.feat("do-while")
-            self.loop += 1
+            self.loop += 1; self.maxloop = max(self.maxloop, self.loop)
             s = "do %s while (%s);" % (self.sub(depth), self.expr())
             self.loop -= 1
             return s
         if c < 0.76:
-            self.loop += 1
+            self.loop += 1; self.maxloop = max(self.maxloop, self.loop)
             form = r.random()
             if form < 0.4:
                 self.nlocal += 1
